@@ -1206,7 +1206,10 @@ class RZILTransformer(Transformer):
                 result = val_a / val_b
             case _:
                 raise NotImplementedError(f"Can not simplify '{operation}' expression.")
-        a_type, b_type = c11_cast(a.value_type, b.value_type)
+        # Truth values (folded comparisons) are promoted to int like every other narrow operand.
+        a_type, b_type = c11_cast(
+            promoted_type(a.value_type), promoted_type(b.value_type)
+        )
         # The result has the common type of the operands. Reduce it to the range of this type
         # (C11 6.2.5p9 for unsigned types, two's complement wrap around for signed ones).
         # Otherwise a fold which uses this constant computes with a value its type can't hold.
